@@ -344,7 +344,7 @@ def real_children(res, tier):
             core.SIGTERM_GUARD[0] = False
         # a child which has delivered its result but whose process is still there: wait() must go on saying "not dead",
         # is_alive() must agree with the process table, and terminate(force=True) must still be able to end it
-        for kname, mk in kinds:
+        for kname, mk in kinds + ([('remote', lambda f: RemoteWorker(f, host=server.addr))] if tier != 'thorough' else []):
             try:
                 w = mk(lingerer)
             except BaseException as e:   # noqa
@@ -359,14 +359,14 @@ def real_children(res, tier):
             alive_says, _ = call_bounded(w.is_alive, 6, lambda: pid)
             a2 = there()
             res.count('real:' + kname + ':Lingering'); res.case(('real', kname, 'Lingering'), nontrivial=True)
-            if kname == 'process':
+            if True:
                 if (r1 is True and a1) or (r1b is True and a2):
                     res.violation(dict(real=kname, child='Lingering'), f'wait(0.3) returned True ({r1}, {r1b}) although the child process {pid} is still running')
                 elif alive_says is False and a2:
                     res.violation(dict(real=kname, child='Lingering'), f'is_alive() says False although the child process {pid} is still running')
             r2, d2 = call_bounded(lambda: w.terminate(timeout=0.3, force=True), 8, lambda: pid)
             time.sleep(0.2)
-            if kname == 'process' and (r2 is not True or there()):
+            if r2 is not True or there():
                 res.violation(dict(real=kname, child='Lingering'), f'terminate(0.3, force=True) returned {r2} and the lingering child process {pid} is {"still running" if there() else "gone"}')
             try:
                 os.kill(pid, signal.SIGKILL)
